@@ -19,6 +19,7 @@ Every case of errors/using/devices/realdev is executed twice: tick by tick and
 through the machine's own run() loop; both must end in the same state.
 """
 import os
+import re
 import shutil
 import signal
 import tempfile
@@ -31,6 +32,8 @@ LEVEL = 'model_checking'
 
 CFG4 = [(0, False), (0, True), (2, False), (2, True)]
 HORIZON = 20000
+RUN_LIMIT = 120.0
+COMPILE_LIMIT = 180.0     # wall clock; generous because the machine is shared
 DEFINED_ENDS = ('halt', 'eoc', 'trap')
 
 
@@ -44,6 +47,29 @@ def arming_lines(arming):
 
 # ---------------------------------------------------------------------------
 # observations
+
+_FROZEN = re.compile(r'^(frozenset|set)\(\{(.*)\}\)$', re.S)
+
+
+def _stable(x):
+    if isinstance(x, tuple):
+        return tuple(_stable(y) for y in x)
+    if isinstance(x, list):
+        return [_stable(y) for y in x]
+    if isinstance(x, str):
+        m = _FROZEN.match(x)
+        if m:
+            return m.group(1) + '({' + ', '.join(sorted(m.group(2).split(', '))) + '})'
+    return x
+
+
+def canon_machine(m):
+    """explore.canon_machine with a stable text for set-valued attributes: the
+    core renders an attribute it does not know with repr(), and the iteration
+    order of a (frozen)set differs between a machine and its deep copy
+    (cpu.stmt_starts, added to the CPU by a fix commit)"""
+    return _stable(explore.canon_machine(m))
+
 
 def obs_of(out):
     """short text of an outcome: 'halt' | 'trap:X' | 'exc:X' | ..."""
@@ -72,7 +98,7 @@ def compare_runs(o1, m1, ev1, o2, m2, ev2):
         return None
     if ev1 != ev2 and repr(ev1) != repr(ev2):
         return 'device trace differs'
-    if explore.canon_machine(m1) != explore.canon_machine(m2):
+    if canon_machine(m1) != canon_machine(m2):
         return 'machine state differs'
     return None
 
@@ -88,7 +114,7 @@ def run_twice(module, mkenv, horizon=HORIZON):
         return o1, None, None, e1, None
     e2 = mkenv()
     try:
-        with impl.time_limit(30.0):
+        with impl.time_limit(RUN_LIMIT):
             if isinstance(e2, denv.DevEnv):
                 o2, m2 = denv.run_loop(module, e2)
             else:
@@ -97,7 +123,7 @@ def run_twice(module, mkenv, horizon=HORIZON):
         o2 = impl.Outcome()
         o2.end = 'timeout'
         o2.events = []
-        return o1, o2, 'run() did not end within 30 s', e1, e2
+        return o1, o2, 'run() did not end within 120 s', e1, e2
     diff = compare_runs(o1, m1, e1.events, o2, m2, e2.events)
     return o1, o2, diff, e1, e2
 
@@ -165,16 +191,21 @@ def errors_chunk(chunk, tier):
     for case, ctx, site in chunk:
         st['errors_cases'] += 1
         groups = {}
+        expect = case['expect']
+        if ctx == 'index' and expect[0] == 'maybe':
+            # used as a subscript of xa%(0 TO 3), a value that is produced after
+            # all may be out of range or too large for the index conversion
+            expect = ('maybe', tuple(sorted(set(expect[1]) | {cat.SUBS, cat.OVF})))
         for arming in cat.ARMINGS:
             src = cat.build_source(case, arming, ctx, site)
             for o, g in CFG4:
-                r = impl.compile_text(src, o, g, want_listing=False)
+                r = impl.compile_text(src, o, g, limit=COMPILE_LIMIT, want_listing=False)
                 if not r.ok:
                     st['not_accepted'] += 1
                     st['outcomes'].add(('not-accepted', r.kind, case['cause']))
                     continue
                 mod = impl.load(r.binary)
-                bad, out = judge_error(mod, arming, case['expect'])
+                bad, out = judge_error(mod, arming, expect)
                 st['evaluations'] += 1
                 st['runs'] += 2
                 st['ticks'] += out.ticks * 2
@@ -197,9 +228,9 @@ def errors_chunk(chunk, tier):
                     'arming': arming, 'debug': _debug_class(cfgs), 'opt': _opt_class(cfgs)}
             viol.append((feat,
                          {'family': 'errors', 'src': src, 'opt': o, 'dbg': g, 'arming': arming,
-                          'expect': list(case['expect']),
+                          'expect': list(expect),
                           'configs': [cfg_name(*c) for c in cfgs]},
-                         expect_text(case['expect'], arming), desc, len(src)))
+                         expect_text(expect, arming), desc, len(src)))
     return viol, st
 
 
@@ -254,7 +285,7 @@ def using_chunk(chunk, cfgs):
             key = (vname, arming, o, g)
             if key not in mods:
                 src = cat.using_source(vname, arming)
-                r = impl.compile_text(src, o, g, want_listing=False)
+                r = impl.compile_text(src, o, g, limit=COMPILE_LIMIT, want_listing=False)
                 if not r.ok:
                     raise RuntimeError('PRINT USING driver rejected: ' + r.brief())
                 mods[key] = (src, impl.load(r.binary))
@@ -341,7 +372,7 @@ def devices_chunk(chunk, bound, nonfinite):
           'unreached_second': 0}
     for prog, arming, o, g in chunk:
         src = cat.device_source(prog, arming)
-        r = impl.compile_text(src, o, g, want_listing=False)
+        r = impl.compile_text(src, o, g, limit=COMPILE_LIMIT, want_listing=False)
         if not r.ok:
             raise RuntimeError(f'device program {prog["name"]} rejected: ' + r.brief())
         mod = impl.load(r.binary)
@@ -414,7 +445,7 @@ def judge_realdev(module):
                     if not cpu.halted and out.ticks >= HORIZON:
                         out.end = 'horizon'
                 else:
-                    with impl.time_limit(30.0):
+                    with impl.time_limit(RUN_LIMIT):
                         m.run()
         except impl.Timeout:
             out.end = 'timeout'
@@ -455,7 +486,7 @@ def realdev_chunk(chunk):
             src = cat.build_source(case, 'none')
             groups = {}
             for o, g in ((0, False), (2, True)):
-                r = impl.compile_text(src, o, g, want_listing=False)
+                r = impl.compile_text(src, o, g, limit=COMPILE_LIMIT, want_listing=False)
                 if not r.ok:
                     st['not_accepted'] += 1
                     continue
@@ -493,7 +524,7 @@ REALDEV_SKIP = ('RND', 'RANDOMIZE')    # nothing device-specific beyond the scri
 
 def snapshot(m, env):
     cpu = m.cpu
-    return (cpu.pc, explore.Canon().value(cpu.stack), explore.memory_view(m), repr(env.events))
+    return (cpu.pc, explore.Canon().value(cpu.stack), _stable(explore.memory_view(m)), repr(env.events))
 
 
 def is_armed(cpu):
@@ -569,7 +600,7 @@ def run_to_boundary(module, inputs, k):
 
 def interrupts_item(src, inputs, o, g):
     """all boundaries of one run -> (bad list [(k, div, obs, info)], counters)"""
-    r = impl.compile_text(src, o, g, want_listing=False)
+    r = impl.compile_text(src, o, g, limit=COMPILE_LIMIT, want_listing=False)
     if not r.ok:
         raise RuntimeError('interrupt program rejected: ' + r.brief() + '\n' + src)
     mod = impl.load(r.binary)
@@ -584,11 +615,11 @@ def interrupts_item(src, inputs, o, g):
     k = 0
     while not cpu.halted and cpu.pc < n and k < 1500:
         cnt['boundaries'] += 1
-        states.add(hash(explore.canon_machine(m)))
+        states.add(hash(canon_machine(m)))
         b, info, f = judge_boundary(m, mod)
         cnt['armed' if info['armed'] else 'strict'] += 1
         cnt['cont_ticks'] += info['cont_ticks']
-        states.add(hash(explore.canon_machine(f)))
+        states.add(hash(canon_machine(f)))
         for div, obs in b:
             bad.append((k, div, obs, info))
         # fork fidelity: an undisturbed fork ticks to the same state as the master
@@ -601,14 +632,17 @@ def interrupts_item(src, inputs, o, g):
             raise
         except BaseException as e:
             cnt['hostexc_master'] = type(e).__name__
+            info = dict(info, where=impl._where(e.__traceback__))
+            bad.append((k, 'host-exception-uninterrupted', 'exc:' + type(e).__name__, info))
             break
-        if explore.canon_machine(f2) != explore.canon_machine(m) or \
+        if canon_machine(f2) != canon_machine(m) or \
                 f2.cpu.devices['terminal'].impl.events != env.events:
             bad.append((k, 'harness-fork-differs', 'fork and master disagree after one tick', info))
         cnt['fork_checked'] += 1
         k += 1
     cnt['ticks'] = k
-    cnt['master_end'] = 'halted' if cpu.halted else ('eoc' if cpu.pc >= n else 'long')
+    cnt['master_end'] = ('hostexc' if cnt['hostexc_master'] else 'halted' if cpu.halted
+                         else ('eoc' if cpu.pc >= n else 'long'))
     return mod, bad, cnt, len(states)
 
 
@@ -651,7 +685,7 @@ def interrupts_run_item(mod, inputs):
                         bad.append((j, 'executed-further', 'state changed in the interrupting tick', base.calls[j]))
             else:
                 try:
-                    with impl.time_limit(30.0):
+                    with impl.time_limit(RUN_LIMIT):
                         o_, m_ = denv.run_loop(mod, env)
                 except impl.Timeout:
                     bad.append((j, 'undefined-halt', 'run() did not end', base.calls[j]))
@@ -677,6 +711,8 @@ def interrupts_chunk(chunk):
           'device_call_interrupts': 0, 'max_ticks_of_a_program': 0, 'master_hostexc': 0}
     for prog, arming, o, g in chunk:
         src = cat.arm_source(prog['src'], arming)
+        # the handler mode in effect: the prefix, else the program's own
+        mode = arming if arming != 'none' else (prog['armed'] or 'none')
         mod, bad, cnt, nstates = interrupts_item(src, prog['inputs'], o, g)
         st['interrupts_cases'] += 1
         st['evaluations'] += cnt['boundaries']
@@ -697,7 +733,7 @@ def interrupts_chunk(chunk):
             raise RuntimeError(f'interrupt program {prog["name"]} exceeds 1500 ticks')
         for k, div, obs, info in bad:
             feat = {'family': 'interrupts', 'divergence': div, 'observed': obs,
-                    'program': prog['name'], 'arming': arming,
+                    'program': prog['name'], 'arming': mode, 'prefix': arming,
                     'handler_armed': bool(info['armed']),
                     'debug': 'g' if g else 'nog', 'opt': f'O{o}'}
             viol.append((feat, {'family': 'interrupts', 'src': src, 'opt': o, 'dbg': g,
@@ -711,7 +747,7 @@ def interrupts_chunk(chunk):
         st['device_call_interrupts'] += ncalls
         for j, div, obs, call in bad2:
             feat = {'family': 'interrupts', 'divergence': div, 'observed': obs,
-                    'program': prog['name'], 'arming': arming, 'during_call': call,
+                    'program': prog['name'], 'arming': mode, 'prefix': arming, 'during_call': call,
                     'debug': 'g' if g else 'nog', 'opt': f'O{o}'}
             viol.append((feat, {'family': 'interrupts', 'src': src, 'opt': o, 'dbg': g,
                                 'inputs': prog['inputs'], 'during_call_index': j,
@@ -824,6 +860,11 @@ def run(chk):
                     'schedule': 'interrupt at boundary k for every k'})
 
     cov = chk.cov
+    if os.environ.get('C07_DUMP'):      # development aid: every violation, one JSON per line
+        import json
+        with open(os.environ['C07_DUMP'], 'w') as fh:
+            for feat, case, exp, obs, size in chk.violations:
+                fh.write(json.dumps({'f': feat, 'c': case, 'o': obs, 's': size}, default=str) + '\n')
     nout = len(cov.get('_sets', {}).get('outcomes', ()))
     cov['distinct_nontrivial'] = int(cov.get('nontrivial', 0))
     # model-checking keys: states/transitions of the explored runs
@@ -862,7 +903,7 @@ def replay(rec):
     o, g = case['opt'], case['dbg']
     print(f'--- family {fam}  O{o} {"-g" if g else "no -g"}  arming={case.get("arming")} ---')
     print(src)
-    r = impl.compile_text(src, o, g, want_listing=False)
+    r = impl.compile_text(src, o, g, limit=COMPILE_LIMIT, want_listing=False)
     if not r.ok:
         print('compile:', r.brief())
         return 0
